@@ -3,6 +3,7 @@
 //! The harness never decides a verdict.
 mod alloc;
 mod codec;
+mod drv_paths;
 mod drv_reader;
 mod drv_writer;
 mod dynspec;
@@ -34,6 +35,8 @@ fn main() {
     let mut out = j::Out::create(&outp);
     match driver {
         "codec" => codec::run(&mut out, seed, thorough),
+        "paths" => drv_paths::run(&mut out, seed, thorough),
+        "paths_exhaustive" => drv_paths::exhaustive(&mut out, seed, if thorough { 1 } else { 8 }),
         d if d.starts_with("writer:") => drv_writer::run(&mut out, &d[7..], seed, thorough),
         "reader:replay" => drv_reader::replay(&mut out, &arg(&args, "--in").expect("--in FILE")),
         d if d.starts_with("reader:") => drv_reader::run(&mut out, &d[7..], seed, thorough),
